@@ -360,6 +360,13 @@ func Run(o Options) int {
 		}
 	}
 
+	if o.Replay == "" {
+		// witnesses of earlier runs of the same (property, tier, seed) are stale
+		old, _ := filepath.Glob(filepath.Join(o.Root, "replays", fmt.Sprintf("%s-%s-%d-*.json", o.Prop, o.Tier, o.Seed)))
+		for _, p := range old {
+			_ = os.Remove(p)
+		}
+	}
 	// Partition scenarios.
 	n := total(chk, o.Tier)
 	var plain, race, serial []int
